@@ -64,11 +64,15 @@ pub struct WsGenOpts {
     /// shapes whose outcome depends on save-phase timing when threads > 1
     pub allow_dir_races: bool,
     pub max_lines: usize,
+    /// only let file patches fail whose reject directory exists both in the start tree and
+    /// right before the failing patch (otherwise whether the reject is written depends on
+    /// how the push is split / on save timing - the "if its directory exists" clause)
+    pub strict_reject_dirs: bool,
 }
 
 impl Default for WsGenOpts {
     fn default() -> Self {
-        WsGenOpts { max_patches: 6, max_files: 8, fail_chance: 3, allow_reverse: true, allow_rename: true, allow_mode: true, allow_strip: true, nasty_names: false, allow_dup_entries: true, allow_dir_races: true, max_lines: 30 }
+        WsGenOpts { max_patches: 6, max_files: 8, fail_chance: 3, allow_reverse: true, allow_rename: true, allow_mode: true, allow_strip: true, nasty_names: false, allow_dup_entries: true, allow_dir_races: true, max_lines: 30, strict_reject_dirs: false }
     }
 }
 
@@ -190,6 +194,10 @@ pub fn gen_ws(ch: &mut Chooser, cx: &mut CaseCtx, o: &WsGenOpts) -> WsCase {
         let mut touched: Vec<String> = Vec::new();
         for oi in 0..nops {
             let want_fail = failing_here && (ch.chance(1, 2) || (oi + 1 == nops && !any_failed));
+            let states_ref = &states;
+            let strict = o.strict_reject_dirs;
+            // the directory must exist in every state a push could start from
+            let rej_dir_ok = |p: &str| -> bool { !strict || states_ref.iter().all(|st| dir_exists(st, dir_of(p))) };
             let existing: Vec<String> = next.files.keys().filter(|p| !touched.contains(p)).cloned().collect();
             let nonempty: Vec<String> = existing.iter().filter(|p| !next.files[*p].data.is_empty()).cloned().collect();
             let mut kind = ch.weighted(&[10, 3, 2, 1, if o.allow_rename && git && !reverse { 2 } else { 0 }, if o.allow_mode && git { 2 } else { 0 }]);
@@ -204,7 +212,19 @@ pub fn gen_ws(ch: &mut Chooser, cx: &mut CaseCtx, o: &WsGenOpts) -> WsCase {
             match kind {
                 1 => {
                     // create
-                    let Some(path) = new_path(ch, &next, &ever, o.nasty_names) else { continue };
+                    // sometimes re-create a file that an earlier patch deleted (or renamed away)
+                    let gone: Vec<String> = ever.iter().filter(|p| !next.files.contains_key(*p) && !touched.contains(*p) && !path_conflicts(&next, p, &[])).cloned().collect();
+                    let recreate = !gone.is_empty() && ch.chance(1, 4);
+                    let path = if recreate && !k9_open {
+                        feat.push("recreate-after-delete".into());
+                        gone[ch.below(gone.len())].clone()
+                    } else {
+                        if recreate {
+                            cx.exclude("KF-K9-recreate-after-delete-keeps-mode");
+                        }
+                        let Some(p) = new_path(ch, &next, &ever, o.nasty_names) else { continue };
+                        p
+                    };
                     if !o.allow_dir_races && !dir_exists(&states[0], dir_of(&path)) && !dir_exists(&next, dir_of(&path)) {
                         // a new directory: fine in itself; rejects inside it are the K6b shape, handled by the
                         // lenient zone of C13. Creating files in new dirs is allowed.
@@ -220,9 +240,10 @@ pub fn gen_ws(ch: &mut Chooser, cx: &mut CaseCtx, o: &WsGenOpts) -> WsCase {
                     let mut fp;
                     let mut fail_reason = None;
                     let mut failing = vec![];
-                    if want_fail && !nonempty.is_empty() {
+                    let victims: Vec<String> = nonempty.iter().filter(|p| rej_dir_ok(p)).cloned().collect();
+                    if want_fail && !victims.is_empty() {
                         // create over an existing non-empty file
-                        let victim = nonempty[ch.below(nonempty.len())].clone();
+                        let victim = victims[ch.below(victims.len())].clone();
                         chg.old_path = victim.clone();
                         chg.new_path = victim.clone();
                         fail_reason = Some("create-over-existing".to_string());
@@ -280,7 +301,7 @@ pub fn gen_ws(ch: &mut Chooser, cx: &mut CaseCtx, o: &WsGenOpts) -> WsCase {
                     };
                     let mut failing = vec![];
                     let mut fail_reason = None;
-                    if want_fail {
+                    if want_fail && rej_dir_ok(&path) {
                         let tag = if reverse { b'+' } else { b'-' };
                         if !fp.hunks.is_empty() && break_hunk(&mut fp.hunks[0], tag) {
                             failing = vec![0];
@@ -316,7 +337,7 @@ pub fn gen_ws(ch: &mut Chooser, cx: &mut CaseCtx, o: &WsGenOpts) -> WsCase {
                     let mut fp = build_file_patch(ch, &d, &chg, &eops, c.max(1), merge);
                     let mut failing = vec![];
                     let mut fail_reason = None;
-                    if want_fail && !fp.hunks.is_empty() {
+                    if want_fail && !fp.hunks.is_empty() && rej_dir_ok(&path) {
                         let hi = ch.below(fp.hunks.len());
                         if break_hunk(&mut fp.hunks[hi], b'-') {
                             failing = vec![hi];
@@ -363,7 +384,8 @@ pub fn gen_ws(ch: &mut Chooser, cx: &mut CaseCtx, o: &WsGenOpts) -> WsCase {
                     let ops_dir = fix_ops(&old_c, &new_c, &canon_blocks(&ops_dir));
                     let mut path_in_patch = path.clone();
                     if missing_file {
-                        if let Some(np) = new_path(ch, &next, &ever, false) {
+                        let cand = new_path(ch, &next, &ever, false).map(|np| if rej_dir_ok(&np) { np } else { format!("missing{}_{}.c", pi, oi) });
+                        if let Some(np) = cand.filter(|np| !path_conflicts(&next, np, &ever)) {
                             ever.push(np.clone());
                             touched.push(np.clone());
                             path_in_patch = np;
@@ -387,7 +409,7 @@ pub fn gen_ws(ch: &mut Chooser, cx: &mut CaseCtx, o: &WsGenOpts) -> WsCase {
                         failing = (0..fp.hunks.len()).collect();
                         fail_reason = Some("missing-file".into());
                         any_failed = true;
-                    } else if want_fail && !fp.hunks.is_empty() {
+                    } else if want_fail && !fp.hunks.is_empty() && rej_dir_ok(&path) {
                         let tag = if reverse { b'+' } else { b'-' };
                         let breakable: Vec<usize> = fp.hunks.iter().enumerate().filter(|(_, h)| h.lines.iter().any(|l| l.tag == tag)).map(|(i, _)| i).collect();
                         if !breakable.is_empty() {
@@ -462,8 +484,6 @@ pub fn gen_ws(ch: &mut Chooser, cx: &mut CaseCtx, o: &WsGenOpts) -> WsCase {
         if failing_here && any_failed && fail_at.is_none() {
             fail_at = Some(pi);
         }
-        // K9 steering: a path deleted earlier in the series and created again
-        let _ = k9_open;
         // render; write the broken hunks into the text (specs carry their own copy of hunks)
         for (sp, op) in specs.iter_mut().zip(ops.iter()) {
             sp.hunks = op.hunks.clone();
@@ -542,6 +562,33 @@ pub fn is_k2_shape(hunks: &[HHunk]) -> bool {
 }
 
 impl WsCase {
+    /// insert a zero-length patch file (which applies trivially) before patch `idx`
+    pub fn insert_empty_patch(&mut self, idx: usize) {
+        let name = format!("empty-{}.patch", idx);
+        self.spec.patches.push((name.clone(), B(vec![])));
+        // series: insert before the line of patch idx (or at the end)
+        let text = String::from_utf8_lossy(&self.spec.series.0).into_owned();
+        let mut lines: Vec<String> = text.lines().map(|l| l.to_string()).collect();
+        let pos = if idx < self.metas.len() {
+            let target = self.metas[idx].name.clone();
+            lines.iter().position(|l| l.split_whitespace().next() == Some(target.as_str())).unwrap_or(lines.len())
+        } else {
+            lines.len()
+        };
+        lines.insert(pos, name.clone());
+        let mut t = lines.join("\n");
+        t.push('\n');
+        self.spec.series = B(t.into_bytes());
+        self.metas.insert(idx, PatchMeta { name, strip: 1, reverse: false, git: false, ops: vec![] });
+        let st = self.states[idx].clone();
+        self.states.insert(idx, st);
+        if let Some(j) = self.fail_at {
+            if j >= idx {
+                self.fail_at = Some(j + 1);
+            }
+        }
+        self.feat.push("zero-length-patch-file".into());
+    }
     /// number of patches that apply from the start of the series
     pub fn applicable(&self) -> usize {
         self.fail_at.unwrap_or(self.metas.len())
